@@ -296,10 +296,11 @@ func drive(args []string) int {
 			var n386 int64
 			if r.rep != nil {
 				n386 = r.rep.Evaluations
+				only386(r.rep)
 			}
 			r.shard += 1000
 			results = append(results, r)
-			note386 = fmt.Sprintf("sampled 32-bit pass: shard %d of %d once more on a GOARCH=386 build of checker and library, %d monitored executions (included in the totals)", pick, nshards, n386)
+			note386 = fmt.Sprintf("sampled 32-bit pass: shard %d of %d once more on a GOARCH=386 build of checker and library, %d monitored executions (included in the execution total, not in the distinct-case counts)", pick, nshards, n386)
 		}
 		fmt.Println(note386)
 	}
@@ -326,11 +327,12 @@ func drive(args []string) int {
 			for i := range extra {
 				if extra[i].rep != nil {
 					n386 += extra[i].rep.Evaluations
+					only386(extra[i].rep)
 				}
 				extra[i].shard += 1000
 			}
 			results = append(results, extra...)
-			note386 = fmt.Sprintf("32-bit pass: the whole workload again on a GOARCH=386 build of checker and library, %d shards, %d monitored executions (included in the totals)", spec.Extra386Shards, n386)
+			note386 = fmt.Sprintf("32-bit pass: the whole workload again on a GOARCH=386 build of checker and library, %d shards, %d monitored executions (included in the execution total, not in the distinct-case counts)", spec.Extra386Shards, n386)
 		}
 		fmt.Println(note386)
 	}
@@ -453,6 +455,23 @@ func drive(args []string) int {
 		return 3
 	}
 	return 0
+}
+
+// only386 keeps a 32-bit shard's executions, violations and samples but not its case counts: its
+// inputs are the same inputs as the native pass's, so they are not additional DISTINCT cases; the
+// named counters are kept under a prefix so that they do not inflate the native ones.
+func only386(rep *h.Report) {
+	rep.Counters["cases_run_again_on_the_386_build"] += rep.Cases
+	rep.Cases, rep.Nontrivial, rep.Duplicates = 0, 0, 0
+	pref := map[string]int64{}
+	for k, v := range rep.Counters {
+		if k == "cases_run_again_on_the_386_build" {
+			pref[k] = v
+		} else {
+			pref["386_build: "+k] = v
+		}
+	}
+	rep.Counters = pref
 }
 
 func runShard(bin string, spec *monitor.Spec, prop, tier string, seed int64, i, n int, runDir string, timeout time.Duration) shardResult {
